@@ -141,7 +141,16 @@ def main():
                         n.lineno += 100
                         n.col_offset = 0
                 again["after_relocate"] = calc_ast_hash(a)
+            # a pristine structural copy (fields only) carries no annotation, whoever attached it
+            again["pristine_copy"] = calc_ast_hash(plain(a))
             rec["again"] = again
+            if b.get("exec_before") and "pickled" not in b:
+                recv = datasets[b.get("dataset", 0) % len(datasets)].seen
+                if recv:
+                    r = recv[-1]
+                    rec["received"] = {"hash": calc_ast_hash(r),
+                                       "canon": json.dumps(canon(r), separators=(",", ":")),
+                                       "pristine": calc_ast_hash(plain(r))}
             if b.get("want_pickle"):
                 rec["pickled"] = base64.b64encode(pickle.dumps(plain(a))).decode()
         except Exception as ex:
@@ -151,7 +160,10 @@ def main():
 
 
 def build(b, datasets, func_adl, simplify_chained_calls, fn_form):
+    from func_adl.ast.ast_hash import calc_ast_hash
+
     ds = datasets[b.get("dataset", 0) % len(datasets)]
+    early = b.get("hash_early")
     mode = b["mode"]
     stages = b["stages"]
     lam_stages = [(op, arg) for op, arg in stages if op in ("Select", "Where", "SelectMany")]
@@ -179,6 +191,10 @@ def build(b, datasets, func_adl, simplify_chained_calls, fn_form):
                 s = s.AsAwkwardArray(arg)
             elif op == "AsPandasDF":
                 s = s.AsPandasDF(arg)
+            if early:  # a user who logs the hash of every intermediate stream
+                calc_ast_hash(s.query_ast)
+    if early:
+        calc_ast_hash(s.query_ast)
     if b.get("qmd"):
         s = s.QMetaData({"note": b["id"]})
     if b.get("exec_before"):
